@@ -302,7 +302,98 @@ def rule_point_coordinates_unreduced_(ctx: Ctx, rep: Report) -> None:
     rule_point_coordinates_unreduced(ctx, rep, "C03.point_coordinates_unreduced", ('btclib.ecc', 'btclib.curves'))
 
 
+def rule_commitment_absent_is_none(ctx: Ctx, rep: Report) -> None:
+    """C03.commitment_absent_is_none: in sign-to-contract the committed value and the
+    receipt are optional, and absent means None: the empty octets are a value
+    like any other (the signer commits to them and hands a receipt back). The
+    functions of ssa.py and dsa.py decide their presence with `is None` / `is
+    not None`, never by truthiness -- `if not commit_hash` makes the verifier
+    refuse the receipt the signer just issued for b\"\"."""
+    rule = "C03.commitment_absent_is_none"
+    names = {"commit_hash", "commit", "receipt"}
+    n = 0
+    for q, fi in sorted(ctx.prog.functions.items()):
+        if not (q.startswith("btclib.ecc.ssa.") or q.startswith("btclib.ecc.dsa.")):
+            continue
+        mine = names & set(fi.params())
+        if not mine:
+            continue
+        for t in own_nodes(fi.node):
+            tests: list[ast.AST] = []
+            if isinstance(t, (ast.If, ast.IfExp, ast.While)):
+                tests = [t.test]
+            elif isinstance(t, ast.BoolOp):
+                tests = list(t.values)
+            for e in tests:
+                inner = e.operand if isinstance(e, ast.UnaryOp) and isinstance(e.op, ast.Not) else e
+                if isinstance(inner, ast.Name) and inner.id in mine:
+                    n += 1
+                    rep.ob(rule, f"{q}:{norm(e)}", False, fi.where(e), f"`{norm(e)}` reads the empty octets as no `{inner.id}` at all: a commitment to b\"\" is signed and then refused, or silently not checked")
+                elif isinstance(inner, ast.Compare) and isinstance(inner.left, ast.Name) and inner.left.id in mine and isinstance(inner.ops[0], (ast.Is, ast.IsNot)):
+                    n += 1
+                    rep.ob(rule, f"{q}:{norm(inner)}", True, fi.where(e), "presence decided by `is None`")
+    rep.floor(rule, 6)
+
+
+def rule_commitment_hashed_by_both_sides(ctx: Ctx, rep: Report) -> None:
+    """C03.commitment_hashed_by_both_sides: the hash-first spellings (`sign`, `verify`,
+    `assert_as_valid`, of ssa.py and dsa.py) take the committed value itself
+    and hand its digest to the `_` functions: whatever is passed as
+    `commit_hash=` there is `reduce_to_hlen(commit, hf)` -- or None for no
+    commitment -- on every path and for every length of `commit`. A signer
+    that skips the hash for a value already one digest long commits to
+    another value than the verifier opens."""
+    rule = "C03.commitment_hashed_by_both_sides"
+    n = 0
+    for q, fi in sorted(ctx.prog.functions.items()):
+        if not (q.startswith("btclib.ecc.ssa.") or q.startswith("btclib.ecc.dsa.")) or "commit" not in fi.params():
+            continue
+
+        def hashed(e: ast.AST) -> bool:
+            if isinstance(e, ast.Call) and call_name(e) == "reduce_to_hlen" and e.args and isinstance(e.args[0], ast.Name) and e.args[0].id == "commit":
+                return True
+            if isinstance(e, ast.IfExp):
+                return all(hashed(x) or (isinstance(x, ast.Constant) and x.value is None) for x in (e.body, e.orelse))
+            return False
+
+        for c in own_nodes(fi.node):
+            if not isinstance(c, ast.Call):
+                continue
+            for k in c.keywords:
+                if k.arg != "commit_hash":
+                    continue
+                n += 1
+                v = k.value
+                if isinstance(v, ast.Name):
+                    defs = [a for a in own_nodes(fi.node) if (isinstance(a, ast.Assign) and any(isinstance(t, ast.Name) and t.id == v.id for t in a.targets))
+                            or (isinstance(a, (ast.AugAssign, ast.AnnAssign)) and isinstance(a.target, ast.Name) and a.target.id == v.id)]
+                    bad = [a for a in defs if not (isinstance(a, ast.Assign) and hashed(a.value))]
+                    ok = bool(defs) and not bad
+                    shown = norm(bad[0]) if bad else norm(v)
+                else:
+                    ok = hashed(v)
+                    shown = norm(v)
+                rep.ob(rule, f"{q}:{call_name(c)}", ok, fi.where(c), "the digest of `commit`, always" if ok else
+                       f"`{shown[:70]}` is handed on as the commitment's digest without being `reduce_to_hlen(commit, hf)`: the other side hashes every `commit`, whatever its length")
+    rep.floor(rule, 4)
+
+
+def rule_stream_param_untouched_(ctx: Ctx, rep: Report) -> None:
+    """C03.stream_param_untouched: `Sig.parse` takes exactly the 64 octets: what
+    tells octets (trailing bytes refused) from the caller's stream (left where
+    it is) is the argument's own type, seen by both helpers as the caller
+    gave it (sigcommon.stream_param_untouched, ecc package)."""
+    from rules import sigcommon
+    sigcommon.rule_stream_param_untouched(ctx, rep, "C03.stream_param_untouched", ("btclib.ecc.",), 3)
+
+
 RULES = [
+    ("C03.stream_param_untouched", rule_stream_param_untouched_),
+
+    ("C03.commitment_hashed_by_both_sides", rule_commitment_hashed_by_both_sides),
+
+    ("C03.commitment_absent_is_none", rule_commitment_absent_is_none),
+
     ("C03.point_coordinates_unreduced", rule_point_coordinates_unreduced_),
 
     ("C03.tagged_hash_layout", rule_tagged_hash_layout),
